@@ -49,6 +49,22 @@ package main
 // sequence, is executed (its private recipient's balance does not move), none is
 // executed twice, nobody but the wrapper's own signer pays or loses a sequence
 // number.  The Coq model refuses every wrapped submission.
+//
+// Contract creations: the messages of a multi-message transaction may be contract
+// creations (init code that deploys, that fails, a constructor that stores), at
+// every position, followed by the re-delivery of every message alone and in
+// sub-batches; a creation counts as executed when it stands in an accepted
+// transaction (cross-checked with the contract account at CreateAddress(sender,
+// nonce)); after an accepted transaction with k messages of a sender its
+// sequence is n + k (x/evm wrote m + 1 after a successful creation until /repo
+// commit f9ff121, so that the later messages of the batch could be delivered
+// again).
+//
+// Account-type operations (kind "accountops"): between submissions a third party
+// converts an existing account into a vesting account (x/vesting), grants are
+// merged, the account is converted back; then every old signed transaction of
+// the account -- Ethereum, Cosmos direct / amino, EIP-712 -- is delivered again.
+// Oracle: no sequence ever decreases; a signed transaction executes at most once.
 
 import (
 	"bytes"
@@ -73,6 +89,7 @@ import (
 	txtypes "github.com/cosmos/cosmos-sdk/types/tx"
 	"github.com/cosmos/cosmos-sdk/types/tx/signing"
 	authtx "github.com/cosmos/cosmos-sdk/x/auth/tx"
+	sdkvesting "github.com/cosmos/cosmos-sdk/x/auth/vesting/types"
 	"github.com/cosmos/cosmos-sdk/x/authz"
 	banktypes "github.com/cosmos/cosmos-sdk/x/bank/types"
 	"github.com/ethereum/go-ethereum/common"
@@ -89,6 +106,7 @@ import (
 	haqqtypes "github.com/haqq-network/haqq/types"
 	"github.com/haqq-network/haqq/utils"
 	evmtypes "github.com/haqq-network/haqq/x/evm/types"
+	vestingtypes "github.com/haqq-network/haqq/x/vesting/types"
 )
 
 func init() { register("sigs", sigsDriver) }
@@ -687,6 +705,8 @@ type sgSub struct {
 	coq       string
 	coqs      []string // one descriptor per message (multi-message transactions)
 	wrap      string   // wrapped submissions: the Coq term of the wrapper
+	flags     []string // transactions with contract creations: one "mk_cflag creates create_ok" per message
+	op        string   // account-type operations: "<kind> <target>%N"
 	seqs      []uint64
 }
 
@@ -778,9 +798,18 @@ func (c *sgCase) coq() string {
 			} else if s.Who >= 0 {
 				who = fmt.Sprintf("(Some [%d%%N])", s.Who)
 			}
-			sub := fmt.Sprintf("Direct %s %s", coqList(units), coqBool(s.OtherOK))
-			if s.wrap != "" {
-				sub = fmt.Sprintf("Wrapped (%s) %s %s", s.wrap, coqList(units), coqBool(s.OtherOK))
+			sub := fmt.Sprintf("ESub (Direct %s %s)", coqList(units), coqBool(s.OtherOK))
+			switch {
+			case s.wrap != "":
+				sub = fmt.Sprintf("ESub (Wrapped (%s) %s %s)", s.wrap, coqList(units), coqBool(s.OtherOK))
+			case s.flags != nil: // an Ethereum-route transaction with contract creations: (message, creates / create_ok) pairs
+				pairs := []string{}
+				for i, u := range units {
+					pairs = append(pairs, fmt.Sprintf("(%s, %s)", u, s.flags[i]))
+				}
+				sub = fmt.Sprintf("ECreating %s %s", coqList(pairs), coqBool(s.OtherOK))
+			case s.op != "": // an account-type operation: its kind, its target, the signed unit of the transaction that performs it
+				sub = fmt.Sprintf("EAccountOp %s %s %s", s.op, coqList(units), coqBool(s.OtherOK))
 			}
 			steps = append(steps, fmt.Sprintf("(%s, %s, %s)", sub, who, coqU64s(seqs)))
 		}
@@ -839,7 +868,7 @@ func sgWhy(what string) string {
 
 // ---------------------------------------------------------------- the mutation cases
 type sgInput struct {
-	Kind  string `json:"kind"`  // "mutations" | "blocks" | "multi" | "wrapped"
+	Kind  string `json:"kind"`  // "mutations" | "blocks" | "multi" | "wrapped" | "accountops"
 	Route string `json:"route"` // for mutations
 	Seed  uint64 `json:"seed"`
 	// kinds "multi" and "wrapped": the explicit script (generated from the seed when absent): initial
@@ -855,6 +884,19 @@ type sgInput struct {
 type sgTx struct {
 	Msgs []sgMsgSpec // the Ethereum route: ExtensionOptionsEthereumTx, these MsgEthereumTx and nothing else
 	Wrap *sgWrap     // any other route
+	Op   *sgOp       // an account-type operation
+}
+
+// sgOp: an operation on the TYPE of account Target, performed by a Cosmos transaction (Route, default
+// cosmos-direct) of its own signer: "into-vesting" = MsgConvertIntoVestingAccount funded by account By (a
+// grant of 1000 aISLM, already vested and unlocked) against the EXISTING account Target; "merge-vesting" = the
+// same with merge = true (a further grant for an account that already is a vesting account); "back" =
+// MsgConvertVestingAccount, signed by Target itself.
+type sgOp struct {
+	Kind   string `json:"kind"`
+	By     int    `json:"by"`
+	Target int    `json:"target"`
+	Route  string `json:"route,omitempty"`
 }
 
 // sgWrap: a Cosmos transaction signed (routes cosmos-direct, cosmos-amino, eip712-ext, eip712-key) by
@@ -873,6 +915,9 @@ type sgWrap struct {
 	Depth  int       `json:"depth"`
 	Inner  []sgInner `json:"inner"`
 	Grant  bool      `json:"grant,omitempty"`
+	// Seq: sign over this sequence instead of the signer's current one; the same wrap with the same Seq later in
+	// the script is a re-delivery of the very same signed bytes
+	Seq *uint64 `json:"seq,omitempty"`
 }
 
 // sgInner: a signed Ethereum message (named as in sgMsgSpec) or, when Eth is absent, a plain MsgSend.
@@ -886,6 +931,11 @@ func (t sgTx) MarshalJSON() ([]byte, error) {
 			Wrap *sgWrap `json:"wrap"`
 		}{t.Wrap})
 	}
+	if t.Op != nil {
+		return json.Marshal(struct {
+			Op *sgOp `json:"op"`
+		}{t.Op})
+	}
 	if t.Msgs == nil {
 		return []byte("[]"), nil
 	}
@@ -898,19 +948,23 @@ func (t *sgTx) UnmarshalJSON(b []byte) error {
 	}
 	var o struct {
 		Wrap *sgWrap `json:"wrap"`
+		Op   *sgOp   `json:"op"`
 	}
 	if err := json.Unmarshal(b, &o); err != nil {
 		return err
 	}
-	if o.Wrap == nil {
-		return fmt.Errorf("a transaction of a script is an array of messages or {\"wrap\": ...}")
+	if o.Wrap == nil && o.Op == nil {
+		return fmt.Errorf("a transaction of a script is an array of messages, {\"wrap\": ...} or {\"op\": ...}")
 	}
-	t.Wrap = o.Wrap
+	t.Wrap, t.Op = o.Wrap, o.Op
 	return nil
 }
 
 // carried: the signed Ethereum messages of the transaction, in order.
 func (t sgTx) carried() []sgMsgSpec {
+	if t.Op != nil {
+		return nil
+	}
 	if t.Wrap == nil {
 		return t.Msgs
 	}
@@ -928,12 +982,22 @@ func (t sgTx) carried() []sgMsgSpec {
 // signed with the same nonce (a replacement); mut = a field changed AFTER signing (the recipient), so
 // that the signature recovers to a stranger; fund = that stranger exists, is funded and has this nonce
 // as its sequence, so that the altered message is executable -- on the stranger's behalf.
+// create != "" = a contract creation (To = nil, no value): "ok" = init code 0x00 (deploys empty code), "fail" =
+// init code 0xfe (the EVM execution fails), "store" = a constructor that writes a storage slot and returns a
+// one-byte runtime.
 type sgMsgSpec struct {
-	From  int    `json:"from"`
-	Nonce uint64 `json:"nonce"`
-	Alt   int    `json:"alt,omitempty"`
-	Mut   bool   `json:"mut,omitempty"`
-	Fund  bool   `json:"fund,omitempty"`
+	From   int    `json:"from"`
+	Nonce  uint64 `json:"nonce"`
+	Alt    int    `json:"alt,omitempty"`
+	Mut    bool   `json:"mut,omitempty"`
+	Fund   bool   `json:"fund,omitempty"`
+	Create string `json:"create,omitempty"`
+}
+
+var sgInitCode = map[string][]byte{
+	"ok":    {0x00},
+	"fail":  {0xfe},
+	"store": {0x60, 0x2a, 0x60, 0x00, 0x55, 0x60, 0x00, 0x60, 0x00, 0x53, 0x60, 0x01, 0x60, 0x00, 0xf3},
 }
 
 type sgEthSubmit struct {
@@ -1387,6 +1451,11 @@ func (w *sgWorld) runBlocks(c *sgCase, r *Rng) {
 				to := accts[(i+1)%na].Addr
 				f.To = &to
 				f.Type = map[string]int{"eth-legacy": 0, "eth-accesslist": 1, "eth-dynamicfee": 2}[route]
+				if r.Chance(25) { // a contract creation (deploys empty code / fails / stores a slot)
+					kind := []string{"ok", "fail", "store"}[r.Intn(3)]
+					f.To, f.Value, f.Data, f.Gas = nil, new(big.Int), sgInitCode[kind], 200000
+					c.tags["blocks:creation:"+kind] = true
+				}
 				tx, err := ethtypes.SignTx(f.build(), w.Signer, x.Key)
 				if err != nil {
 					panic(err)
@@ -1524,7 +1593,7 @@ func sgStartChain() (*app.Haqq, tmproto.Header, sdk.Context) {
 }
 
 func sgSpecKey(sp sgMsgSpec) string {
-	return fmt.Sprintf("%d/%d/%d/%v", sp.From, sp.Nonce, sp.Alt, sp.Mut)
+	return fmt.Sprintf("%d/%d/%d/%v/%s", sp.From, sp.Nonce, sp.Alt, sp.Mut, sp.Create)
 }
 
 // sgGenMulti writes the script of a "multi" case into the input: 2-3 sender accounts, 5-9 Cosmos
@@ -1649,6 +1718,168 @@ func sgGenMulti(in *sgInput) {
 	}
 	if ntx > 3 && r.Chance(50) {
 		in.Boundary = 1 + r.Intn(ntx-1)
+	}
+}
+
+// sgGenCreates writes the script of a "multi" case with contract creations: one or two senders; 2-3 rounds, each a
+// batch of 1-4 messages -- calls and creations (init code that deploys, that fails, a constructor that stores) at
+// every position, nonces in order -- followed by re-deliveries of every message alone, of every proper suffix and
+// prefix of the batch and of a random sub-batch, in random order.
+func sgGenCreates(in *sgInput) {
+	r := NewRng(in.Seed ^ 0x63726561746573)
+	na := 1 + r.Intn(2)
+	sim := make([]uint64, na)
+	for i := range sim {
+		sim[i] = uint64(r.Intn(4))
+		if r.Chance(5) {
+			sim[i] = 1 << 40
+		}
+	}
+	in.Seq0 = append([]uint64{}, sim...)
+	kinds := []string{"", "ok", "fail", "store"}
+	weights := []int{45, 30, 10, 15}
+	kind := func() string {
+		x := r.Intn(100)
+		for i, w := range weights {
+			if x < w {
+				return kinds[i]
+			}
+			x -= w
+		}
+		return ""
+	}
+	rounds := 2 + r.Intn(2)
+	for q := 0; q < rounds; q++ {
+		n := 1 + r.Intn(4)
+		tx := []sgMsgSpec{}
+		hasCreate := false
+		for k := 0; k < n; k++ {
+			i := r.Intn(na)
+			sp := sgMsgSpec{From: i, Nonce: sim[i], Create: kind()}
+			hasCreate = hasCreate || sp.Create != ""
+			tx = append(tx, sp)
+			sim[i]++
+		}
+		if !hasCreate && r.Chance(85) {
+			tx[r.Intn(n)].Create = []string{"ok", "store"}[r.Intn(2)]
+		}
+		in.Txs = append(in.Txs, sgTx{Msgs: tx})
+		again := [][]sgMsgSpec{}
+		for k := range tx {
+			again = append(again, []sgMsgSpec{tx[k]})
+			if k > 0 {
+				again = append(again, append([]sgMsgSpec{}, tx[k:]...), append([]sgMsgSpec{}, tx[:k]...))
+			}
+		}
+		if n > 2 {
+			sub := []sgMsgSpec{}
+			for k := range tx {
+				if r.Bool() {
+					sub = append(sub, tx[k])
+				}
+			}
+			if len(sub) > 0 {
+				again = append(again, sub)
+			}
+		}
+		for k := len(again) - 1; k > 0; k-- {
+			j := r.Intn(k + 1)
+			again[k], again[j] = again[j], again[k]
+		}
+		for _, t := range again {
+			in.Txs = append(in.Txs, sgTx{Msgs: t})
+		}
+	}
+	if n := len(in.Txs); n > 3 && r.Chance(50) {
+		in.Boundary = 1 + r.Intn(n-1)
+	}
+}
+
+// sgGenOps writes the script of an "accountops" case: 2-3 accounts; a victim (sequence 0 in 60%) executes 2-4
+// transactions on random routes (Ethereum single / batch, also with a creation; Cosmos direct / amino / EIP-712
+// signed over explicit sequences); then 1-3 rounds of: an account-type operation against the victim by another
+// account (conversion into a vesting account, then merges or the conversion back), re-delivery of EVERY old
+// signed transaction of the victim (and some of the others) in random order, 1-2 fresh transactions.
+func sgGenOps(in *sgInput) {
+	r := NewRng(in.Seed ^ 0x6163636f70)
+	na := 2 + r.Intn(2)
+	sim := make([]uint64, na)
+	for i := range sim {
+		if !r.Chance(60) {
+			sim[i] = uint64(1 + r.Intn(3))
+		}
+	}
+	in.Seq0 = append([]uint64{}, sim...)
+	cosRoutes := []string{"cosmos-direct", "cosmos-amino", "eip712-ext", "eip712-key"}
+	olds := map[int][]sgTx{} // what every account has signed (and got executed) so far, one transaction each
+	submit := func(i int) {
+		if r.Chance(45) {
+			n := 1
+			if r.Chance(30) {
+				n = 2
+			}
+			tx := []sgMsgSpec{}
+			for q := 0; q < n; q++ {
+				sp := sgMsgSpec{From: i, Nonce: sim[i]}
+				if r.Chance(20) {
+					sp.Create = []string{"ok", "store", "fail"}[r.Intn(3)]
+				}
+				tx = append(tx, sp)
+				olds[i] = append(olds[i], sgTx{Msgs: []sgMsgSpec{sp}})
+				sim[i]++
+			}
+			in.Txs = append(in.Txs, sgTx{Msgs: tx})
+			if n > 1 {
+				olds[i] = append(olds[i], sgTx{Msgs: tx})
+			}
+			return
+		}
+		sq := sim[i]
+		t := sgTx{Wrap: &sgWrap{Route: cosRoutes[r.Intn(len(cosRoutes))], Signer: i, Inner: []sgInner{{}}, Seq: &sq}}
+		in.Txs = append(in.Txs, t)
+		olds[i] = append(olds[i], t)
+		sim[i]++
+	}
+	victim := r.Intn(na)
+	other := func() int { return (victim + 1 + r.Intn(na-1)) % na }
+	for q, n := 0, 2+r.Intn(3); q < n; q++ {
+		if r.Chance(25) {
+			submit(other())
+		} else {
+			submit(victim)
+		}
+	}
+	vesting := false
+	for round, n := 0, 1+r.Intn(3); round < n; round++ {
+		op := &sgOp{By: other(), Target: victim, Route: []string{"cosmos-direct", "cosmos-direct", "cosmos-amino", "eip712-ext"}[r.Intn(4)]}
+		switch {
+		case !vesting:
+			op.Kind, vesting = "into-vesting", true
+		case r.Bool():
+			op.Kind = "merge-vesting"
+		default:
+			op.Kind, op.By, vesting = "back", victim, false
+			sim[victim]++ // the vesting account signs the conversion back itself
+		}
+		if op.Kind != "back" {
+			sim[op.By]++
+		}
+		in.Txs = append(in.Txs, sgTx{Op: op})
+		again := append([]sgTx{}, olds[victim]...)
+		if o := other(); len(olds[o]) > 0 && r.Bool() {
+			again = append(again, olds[o][r.Intn(len(olds[o]))])
+		}
+		for k := len(again) - 1; k > 0; k-- {
+			j := r.Intn(k + 1)
+			again[k], again[j] = again[j], again[k]
+		}
+		in.Txs = append(in.Txs, again...)
+		for q, m := 0, 1+r.Intn(2); q < m; q++ {
+			submit(victim)
+		}
+	}
+	if n := len(in.Txs); n > 3 && r.Chance(50) {
+		in.Boundary = 1 + r.Intn(n-1)
 	}
 }
 
@@ -1794,13 +2025,20 @@ type sgSigned struct {
 	rec   int      // interned account the signature recovers to, -1 = none
 	desc  string
 	label string
+	// contract creations: to = the address of the contract (CreateAddress(sender, nonce)), value = 0
+	create string
 }
 
 func (w *sgWorld) runMulti(c *sgCase, in *sgInput) {
 	if len(in.Txs) == 0 {
-		if in.Kind == "wrapped" {
+		switch {
+		case in.Kind == "accountops":
+			sgGenOps(in)
+		case in.Kind == "wrapped":
 			sgGenWrapped(in)
-		} else {
+		case in.Seed%5 < 2: // two multi cases in five: batches with contract creations and their re-deliveries
+			sgGenCreates(in)
+		default:
 			sgGenMulti(in)
 		}
 	}
@@ -1813,6 +2051,14 @@ func (w *sgWorld) runMulti(c *sgCase, in *sgInput) {
 		}
 		if tx.Wrap != nil && tx.Wrap.Signer+1 > na {
 			na = tx.Wrap.Signer + 1
+		}
+		if tx.Op != nil {
+			if tx.Op.By+1 > na {
+				na = tx.Op.By + 1
+			}
+			if tx.Op.Target+1 > na {
+				na = tx.Op.Target + 1
+			}
 		}
 	}
 	for len(in.Seq0) < na {
@@ -1846,15 +2092,22 @@ func (w *sgWorld) runMulti(c *sgCase, in *sgInput) {
 		to := common.BytesToAddress(rr.Bytes(20))
 		f := sgEthFields{Type: rr.Intn(3), ChainID: big.NewInt(sgThisEIP155), Nonce: sp.Nonce, GasPrice: price, FeeCap: price, Tip: big.NewInt(1),
 			Gas: 100000, To: &to, Value: big.NewInt(int64(1 + rr.Intn(sgTransferUnit)))}
+		if code, ok := sgInitCode[sp.Create]; ok {
+			f.To, f.Value, f.Data, f.Gas = nil, new(big.Int), code, 200000
+			to = crypto.CreateAddress(accts[sp.From].Addr, sp.Nonce)
+		}
 		tx, err := ethtypes.SignTx(f.build(), w.Signer, accts[sp.From].Key)
 		if err != nil {
 			panic(err)
 		}
 		label := fmt.Sprintf("account%d/nonce%d", sp.From, sp.Nonce)
+		if f.To == nil {
+			label += "/create-" + sp.Create
+		}
 		if sp.Alt > 0 {
 			label += fmt.Sprintf("/replacement%d", sp.Alt)
 		}
-		if sp.Mut { // the recipient is changed after signing: same V, R, S over other content
+		if sp.Mut && f.To != nil { // the recipient is changed after signing: same V, R, S over other content
 			x := sgFieldsOf(tx)
 			to = common.BytesToAddress(rr.Bytes(20))
 			x.To = &to
@@ -1862,6 +2115,9 @@ func (w *sgWorld) runMulti(c *sgCase, in *sgInput) {
 			label += "/recipient-altered-after-signing"
 		}
 		g := &sgSigned{spec: sp, tx: tx, hash: tx.Hash().Hex()[:12], to: to, value: tx.Value(), label: label}
+		if f.To == nil {
+			g.create = sp.Create
+		}
 		g.cost = new(big.Int).Add(tx.Value(), new(big.Int).Mul(price, new(big.Int).SetUint64(tx.Gas())))
 		g.desc, g.rec = w2.ethDescriptor(c, tx)
 		signed[key] = g
@@ -1888,6 +2144,139 @@ func (w *sgWorld) runMulti(c *sgCase, in *sgInput) {
 	}
 	h := sgHist{Init: c.snapshot(ctx, a)}
 	execTotal := map[string]int{}
+
+	// ---- how often a signed message executed, counted on the state.  A call pays its private recipient.  A
+	// contract creation leaves a contract account at CreateAddress(sender, nonce); a creation whose EVM execution
+	// fails (or whose contract account was there before) leaves nothing but the sender's payment, so for creations
+	// the count is the number of times the message stands in an ACCEPTED transaction (DeliverTx processes a
+	// transaction as a whole), cross-checked with the contract account.
+	type sgPre struct {
+		bal    *big.Int
+		exists bool
+	}
+	snapTo := func(ms []*sgSigned) map[string]sgPre {
+		out := map[string]sgPre{}
+		for _, g := range ms {
+			to := sdk.AccAddress(g.to.Bytes())
+			out[g.hash] = sgPre{bal: sgBal(ctx, a, to), exists: a.AccountKeeper.GetAccount(ctx, to) != nil}
+		}
+		return out
+	}
+	countExecs := func(what string, ms []*sgSigned, pre map[string]sgPre, accepted bool) (map[string]int, map[string]bool, bool) {
+		execs, created := map[string]int{}, map[string]bool{}
+		occ := map[string]int{}
+		for _, g := range ms {
+			occ[g.hash]++
+		}
+		anyExec := false
+		for _, g := range ms {
+			if _, ok := execs[g.hash]; ok {
+				continue
+			}
+			to := sdk.AccAddress(g.to.Bytes())
+			if g.create != "" {
+				created[g.hash] = !pre[g.hash].exists && a.AccountKeeper.GetAccount(ctx, to) != nil
+				n := 0
+				switch {
+				case accepted:
+					n = occ[g.hash]
+				case created[g.hash]:
+					n = 1
+				}
+				if accepted && g.create != "fail" && !pre[g.hash].exists && !created[g.hash] {
+					c.tags["create:accepted-without-contract"] = true
+				}
+				if created[g.hash] && g.create == "fail" {
+					c.tags["create:failing-init-code-left-a-contract"] = true
+				}
+				execs[g.hash] = n
+				anyExec = anyExec || n > 0
+				c.tags[fmt.Sprintf("create:%s:created=%v", g.create, created[g.hash])] = true
+				continue
+			}
+			d := new(big.Int).Sub(sgBal(ctx, a, to), pre[g.hash].bal)
+			q, rem := new(big.Int).QuoRem(d, g.value, new(big.Int))
+			if rem.Sign() != 0 || d.Sign() < 0 || !q.IsInt64() {
+				c.fail("%s: the recipient of %s received %s, not a multiple of the signed value %s", what, g.label, d, g.value)
+			}
+			execs[g.hash] = int(q.Int64())
+			anyExec = anyExec || q.Sign() > 0
+		}
+		return execs, created, anyExec
+	}
+
+	// ---- an account-type operation between submissions
+	cosmosExec := map[string]int{}
+	opStep := func(t int, op *sgOp) {
+		what := fmt.Sprintf("tx%d", t)
+		if op.By < 0 || op.By >= len(accts) || op.Target < 0 || op.Target >= len(accts) {
+			c.tags["op:bad-script"] = true
+			return
+		}
+		by, tgt := accts[op.By], accts[op.Target]
+		signer := by
+		grant := sdk.NewCoins(sdk.NewCoin(utils.BaseDenom, sdkmath.NewInt(1000)))
+		periods := sdkvesting.Periods{{Length: 1, Amount: grant}}
+		var msg sdk.Msg
+		coqOp := ""
+		switch op.Kind {
+		case "into-vesting":
+			msg, coqOp = vestingtypes.NewMsgConvertIntoVestingAccount(by.Acc, tgt.Acc, ctx.BlockTime().Add(-time.Hour), periods, periods, false, false, nil), "OpConvertIntoVesting"
+		case "merge-vesting":
+			msg, coqOp = vestingtypes.NewMsgConvertIntoVestingAccount(by.Acc, tgt.Acc, ctx.BlockTime().Add(-time.Hour), periods, periods, true, false, nil), "OpMergeVesting"
+		case "back":
+			signer = tgt
+			msg, coqOp = vestingtypes.NewMsgConvertVestingAccount(tgt.Acc), "OpConvertBack"
+		default:
+			c.tags["op:bad-script"] = true
+			return
+		}
+		route := op.Route
+		if route == "" {
+			route = "cosmos-direct"
+		}
+		signerIdx, tgtIdx := c.intern(signer.Acc), c.intern(tgt.Acc)
+		seq := sgSeq(ctx, a, signer.Acc)
+		bz, d, err := w2.sgSignCosmosGas(ctx, route, signer, chainID, chainID, sgAccNum(ctx, a, signer.Acc), seq, []sdk.Msg{msg}, price, 800000)
+		if err != nil {
+			c.tags["op:unbuildable:"+op.Kind+":"+route] = true
+			return
+		}
+		signed := fmt.Sprintf("(Some (mk_doc %q %s %s %d%%N))", d.Chain, coqU64(d.AccNum), coqU64(d.Seq), c.body(d.BodyID))
+		desc := fmt.Sprintf("SCosmos %d%%N %s %s %d%%N", signerIdx, coqU64(seq), signed, c.body(d.BodyID))
+		if route == "eip712-ext" {
+			desc = fmt.Sprintf("SEip712 %d%%N %s %s %d%%N %d%%Z true", signerIdx, coqU64(seq), signed, c.body(d.BodyID), sgThisEIP155)
+		}
+		typeOf := func() string {
+			t := fmt.Sprintf("%T", a.AccountKeeper.GetAccount(ctx, tgt.Acc))
+			return t[strings.LastIndex(t, ".")+1:]
+		}
+		pre, typeBefore := c.snapshot(ctx, a), typeOf()
+		bctx, _ := ctx.CacheContext()
+		aerr := w2.sgRunAnte(bctx, bz)
+		class, modelled := sgErrClass(aerr)
+		res := a.DeliverTx(abci.RequestDeliverTx{Tx: bz})
+		post, typeAfter := c.snapshot(ctx, a), typeOf()
+		shape := fmt.Sprintf("%s of account%d (%s -> %s) by a %s transaction of account%d, code %d", op.Kind, op.Target, typeBefore, typeAfter, route, c.intern(signer.Acc), res.Code)
+		// the property: the sequence of an account never decreases (else what it signed before can be delivered again)
+		for i := range post {
+			if post[i] < pre[i] {
+				c.fail("%s (%s): the sequence of account %d went DOWN %d -> %d: every transaction it signed with a nonce from %d on can be delivered a second time",
+					what, shape, i, pre[i], post[i], post[i])
+			}
+		}
+		who := -1
+		if post[signerIdx] == pre[signerIdx]+1 {
+			who = signerIdx
+		}
+		log := res.Log
+		if len(log) > 140 {
+			log = log[:140]
+		}
+		h.Steps = append(h.Steps, sgSub{What: what + ":op:" + op.Kind, Class: class, Who: who, OtherOK: modelled, SeqBefore: pre, SeqAfter: post,
+			Deliver: fmt.Sprintf("code %d %s", res.Code, log), Wrapper: shape, coq: desc, op: fmt.Sprintf("%s %d%%N", coqOp, tgtIdx), seqs: post})
+		c.tags[fmt.Sprintf("op:%s:%s->%s:code%d", op.Kind, typeBefore, typeAfter, res.Code)] = true
+	}
 
 	// ---- a Cosmos transaction that carries signed Ethereum messages on a route that is not theirs
 	sink := sdk.AccAddress(NewRng(in.Seed ^ 0x73696e6b).Bytes(20))
@@ -1972,6 +2361,10 @@ func (w *sgWorld) runMulti(c *sgCase, in *sgInput) {
 		gas := uint64(300000 + 400000*len(carried) + 60000*len(msgs))
 		if cosmosSigned {
 			seq := sgSeq(ctx, a, signer.Acc)
+			if wr.Seq != nil {
+				seq = *wr.Seq
+				c.tags["wrapped:explicit-sequence"] = true
+			}
 			accNum := sgAccNum(ctx, a, signer.Acc)
 			b, d, err := w2.sgSignCosmosGas(ctx, wr.Route, signer, chainID, chainID, accNum, seq, msgs, price, gas)
 			signed := "None"
@@ -2048,10 +2441,7 @@ func (w *sgWorld) runMulti(c *sgCase, in *sgInput) {
 			}
 		}
 		pre, preBal := c.snapshot(ctx, a), bals()
-		preTo := map[string]*big.Int{}
-		for _, g := range carried {
-			preTo[g.hash] = sgBal(ctx, a, sdk.AccAddress(g.to.Bytes()))
-		}
+		preTo := snapTo(carried)
 		// ---- the real ante handler on a discarded branch (error class), then the real DeliverTx
 		bctx, _ := ctx.CacheContext()
 		if in.Seed%3 == 0 {
@@ -2082,27 +2472,33 @@ func (w *sgWorld) runMulti(c *sgCase, in *sgInput) {
 			}
 			if who >= 0 {
 				c.nAccepted++
+				// the property for Cosmos / EIP-712 signed transactions: only at the signer's current sequence, at most once
+				id := hex.EncodeToString(bz)
+				cosmosExec[id]++
+				signedOver := pre[who]
+				if wr.Seq != nil {
+					signedOver = *wr.Seq
+				}
+				if signedOver != pre[who] {
+					c.fail("%s (%s): a Cosmos transaction signed over sequence %d was executed while the account's sequence was %d", what, shape, signedOver, pre[who])
+				}
+				if cosmosExec[id] > 1 {
+					c.fail("%s (%s): ONE signature, %d executions: the very same signed Cosmos transaction (signed over sequence %d) has now been executed %d times",
+						what, shape, cosmosExec[id], signedOver, cosmosExec[id])
+				}
+			}
+			for i := range post {
+				if post[i] < pre[i] {
+					c.fail("%s (%s): the sequence of account %d went DOWN %d -> %d", what, shape, i, pre[i], post[i])
+				}
 			}
 			h.Steps = append(h.Steps, sgSub{What: what + ":cosmos", Class: class, Who: who, OtherOK: modelled, SeqBefore: pre, SeqAfter: post,
 				Deliver: deliver, Wrapper: shape, coq: outer, seqs: post})
 			c.tags["wrapped:plain-cosmos-tx:"+wr.Route+":"+class] = true
 			return
 		}
-		// ---- how often every carried message executed: its private recipient's balance
-		execs := map[string]int{}
-		anyExec := false
-		for _, g := range carried {
-			if _, ok := execs[g.hash]; ok {
-				continue
-			}
-			d := new(big.Int).Sub(sgBal(ctx, a, sdk.AccAddress(g.to.Bytes())), preTo[g.hash])
-			q, rem := new(big.Int).QuoRem(d, g.value, new(big.Int))
-			if rem.Sign() != 0 || d.Sign() < 0 || !q.IsInt64() {
-				c.fail("%s: the recipient of %s received %s, not a multiple of the signed value %s", what, g.label, d, g.value)
-			}
-			execs[g.hash] = int(q.Int64())
-			anyExec = anyExec || q.Sign() > 0
-		}
+		// ---- how often every carried message executed: its private recipient's balance / its contract account
+		execs, _, anyExec := countExecs(what, carried, preTo, accepted)
 		// ---- the property.  "The account's current sequence number" = its sequence when the carrying
 		// transaction is submitted (plus its earlier messages in it), as for the Ethereum route.
 		cur := append([]uint64{}, pre...)
@@ -2222,6 +2618,10 @@ func (w *sgWorld) runMulti(c *sgCase, in *sgInput) {
 			ctx = a.BaseApp.NewContext(false, hdr)
 			c.tags["block-boundary"] = true
 		}
+		if txs.Op != nil {
+			opStep(t, txs.Op)
+			continue
+		}
 		if wr := txs.Wrap; wr != nil {
 			if !wr.isEthRoute() {
 				wrapped(t, wr)
@@ -2260,10 +2660,7 @@ func (w *sgWorld) runMulti(c *sgCase, in *sgInput) {
 			continue
 		}
 		pre, preBal := c.snapshot(ctx, a), bals()
-		preTo := map[string]*big.Int{}
-		for _, g := range msgs {
-			preTo[g.hash] = sgBal(ctx, a, sdk.AccAddress(g.to.Bytes()))
-		}
+		preTo := snapTo(msgs)
 		// ---- what the property says about this transaction (walk over the messages with the sequences as they are)
 		bad, cat := "", "in-order"
 		{
@@ -2303,21 +2700,8 @@ func (w *sgWorld) runMulti(c *sgCase, in *sgInput) {
 		res := a.DeliverTx(abci.RequestDeliverTx{Tx: bz})
 		accepted := res.Code == 0
 		post, postBal := c.snapshot(ctx, a), bals()
-		// how often every signed message executed: its private recipient's balance
-		execs := map[string]int{}
-		anyExec := false
-		for _, g := range msgs {
-			if _, ok := execs[g.hash]; ok {
-				continue
-			}
-			d := new(big.Int).Sub(sgBal(ctx, a, sdk.AccAddress(g.to.Bytes())), preTo[g.hash])
-			q, rem := new(big.Int).QuoRem(d, g.value, new(big.Int))
-			if rem.Sign() != 0 || d.Sign() < 0 || !q.IsInt64() {
-				c.fail("%s: the recipient of %s received %s, not a multiple of the signed value %s", what, g.label, d, g.value)
-			}
-			execs[g.hash] = int(q.Int64())
-			anyExec = anyExec || q.Sign() > 0
-		}
+		// how often every signed message executed: its private recipient's balance / its contract account
+		execs, created, anyExec := countExecs(what, msgs, preTo, accepted)
 		var whos []int
 		executed := []int{}
 		{
@@ -2408,7 +2792,18 @@ func (w *sgWorld) runMulti(c *sgCase, in *sgInput) {
 			}
 			for i := range post {
 				if post[i] != pre[i]+cnt[i] {
-					c.fail("%s: account %d's sequence went %d -> %d while %d message(s) executed on its behalf", what, i, pre[i], post[i], cnt[i])
+					again := []string{}
+					for _, g := range msgs {
+						if g.rec == i && g.tx.Nonce() >= post[i] {
+							again = append(again, g.label+" "+g.hash)
+						}
+					}
+					hint := ""
+					if len(again) > 0 {
+						hint = fmt.Sprintf(": the executed message(s) [%s] carry a nonce the account's sequence has not passed and can be delivered a second time", strings.Join(again, ", "))
+					}
+					c.fail("%s [%s]: account %d's sequence went %d -> %d while %d message(s) executed on its behalf (must be %d)%s",
+						what, strings.Join(labels, ", "), i, pre[i], post[i], cnt[i], pre[i]+cnt[i], hint)
 				}
 				if paid := new(big.Int).Sub(preBal[i], postBal[i]); paid.Cmp(allowed[i]) > 0 {
 					c.fail("%s: account %d paid %s, more than the messages executed on its behalf can cost (%s)", what, i, paid, allowed[i])
@@ -2423,8 +2818,24 @@ func (w *sgWorld) runMulti(c *sgCase, in *sgInput) {
 		if len(log) > 140 {
 			log = log[:140]
 		}
+		var flags []string
+		for _, g := range msgs {
+			if g.create != "" {
+				flags = make([]string, len(msgs))
+				break
+			}
+		}
+		for k, g := range msgs {
+			if flags != nil {
+				flags[k] = "no_creation"
+				if g.create != "" {
+					flags[k] = fmt.Sprintf("(mk_cflag true %s)", coqBool(created[g.hash]))
+					c.tags[fmt.Sprintf("multi:creation-at-%d-of-%d", k, len(msgs))] = true
+				}
+			}
+		}
 		h.Steps = append(h.Steps, sgSub{What: what + ":" + cat, Class: class, Who: who, OtherOK: modelled, Msgs: labels, Whos: whos, Executed: executed,
-			SeqBefore: pre, SeqAfter: post, Deliver: fmt.Sprintf("code %d %s", res.Code, log), coqs: descs, seqs: post})
+			SeqBefore: pre, SeqAfter: post, Deliver: fmt.Sprintf("code %d %s", res.Code, log), coqs: descs, flags: flags, seqs: post})
 		c.tags["multi:"+cat+":"+class] = true
 		c.tags[fmt.Sprintf("multi:%d-msgs", len(msgs))] = true
 	}
@@ -2440,7 +2851,7 @@ func sgRunCase(id string, in sgInput) Case {
 		e := forkEnv() // only to share the tx config / signer
 		c.tags["kind:blocks"] = true
 		sgWorldOf(e).runBlocks(c, r)
-	case "multi", "wrapped":
+	case "multi", "wrapped", "accountops":
 		e := forkEnv() // only to share the tx config / signer
 		c.tags["kind:"+in.Kind] = true
 		sgWorldOf(e).runMulti(c, &in)
@@ -2509,6 +2920,9 @@ func sigsDriver(cfg Config, out *Out) error {
 			in.Route = sgRoutes[(i-(i+3)/6-(i+0)/6)%len(sgRoutes)]
 			if i%12 == 4 { // ... of which one in eight gives way to a history with wrapped submissions
 				in.Kind, in.Route = "wrapped", ""
+			}
+			if i%12 == 10 { // ... and one in eight to a history with account-type operations and re-deliveries
+				in.Kind, in.Route = "accountops", ""
 			}
 		}
 		out.Emit(sgRunCase(fmt.Sprintf("s%d-%d", cfg.Seed, i), in))
